@@ -32,13 +32,33 @@ def writer_templates(mod, fname):
     rec = mod.get(fname + '.rec')
     p = rec.args.args[0].arg
     leaf = node = None
+    seen = {'leaf': [], 'node': []}
     for st, ret in codec.returns_of(rec):
         if codec.path_has(st, A(N(p), 'is_leaf'), True):
             leaf = (st, ret)
+            if ret not in seen['leaf']:
+                seen['leaf'].append(ret)
         elif codec.path_has(st, A(N(p), 'is_leaf'), False):
             node = (st, ret)
+            if ret not in seen['node']:
+                seen['node'].append(ret)
     if leaf is None or node is None:
         raise AnalysisError('%s: %s.rec lacks a leaf or a node path' % (mod.rel, fname))
+    # a record kind written in several ways (say unary and binary nodes formatted apart): every way must be the same
+    # sequence of fields -- the rules below judge one of them
+    for kind, rets in seen.items():
+        if len(rets) > 1:
+            shapes = []
+            for r_ in rets:
+                try:
+                    shapes.append([(role_of(t, p)[0], role_of(t, p)[1]) for t in codec.fstr_tokens(r_)])
+                except AnalysisError:
+                    shapes.append(None)
+            if any(s_ != shapes[-1] for s_ in shapes):
+                from ..core import StructuralViolation
+                raise StructuralViolation('R-codec', '%s:%s %s.rec' % (mod.rel, rec.lineno, fname), '%s:%s-records-differ' % (fname, kind),
+                                          '%s records are written in %d different forms depending on the node: %s -- the reader knows one record layout'
+                                          % (kind, len(rets), [[x[0] for x in s_] if s_ else '?' for s_ in shapes]))
     return p, leaf, node
 
 
